@@ -18,6 +18,7 @@ import (
 	"fmt"
 	"go/types"
 	"os"
+	"sort"
 	"strings"
 )
 
@@ -52,10 +53,43 @@ type StructLayout struct {
 
 type Layouts struct {
 	byName map[string]*StructLayout
+	bySig  map[string]*StructLayout // leaf classes with identical field lists share one layout (and type id)
 	nextID int
 }
 
-func NewLayouts() *Layouts { return &Layouts{byName: map[string]*StructLayout{}, nextID: 1} }
+func NewLayouts() *Layouts {
+	return &Layouts{byName: map[string]*StructLayout{}, bySig: map[string]*StructLayout{}, nextID: 1}
+}
+
+// leafSig: the field list of a leaf struct (names and types in order). Two generic leaf structs
+// with the same list have the same memory layout for every instantiation, which is what the
+// unsafe casts between them (rangeScan instantiated with *unsignedLeafNode for the signed and
+// float trees) rely on; such structs are one class for the heap model.
+func leafSig(st *types.Struct) string {
+	var b strings.Builder
+	for i := 0; i < st.NumFields(); i++ {
+		f := st.Field(i)
+		fmt.Fprintf(&b, "%s:%s;", f.Name(), types.TypeString(f.Type(), func(*types.Package) string { return "" }))
+	}
+	return b.String()
+}
+
+// RegisterLeafClasses visits the package's leaf structs in name order so that the class
+// representative does not depend on which function is verified.
+func (ls *Layouts) RegisterLeafClasses(pkg *types.Package) {
+	names := pkg.Scope().Names()
+	sort.Strings(names)
+	for _, n := range names {
+		if !strings.HasSuffix(n, "LeafNode") {
+			continue
+		}
+		if tn, ok := pkg.Scope().Lookup(n).(*types.TypeName); ok {
+			if _, isSt := tn.Type().Underlying().(*types.Struct); isSt {
+				ls.Of(tn.Type())
+			}
+		}
+	}
+}
 
 func baseTypeName(t types.Type) string {
 	switch x := types.Unalias(t).(type) {
@@ -129,6 +163,14 @@ func (ls *Layouts) Of(t types.Type) *StructLayout {
 	st, ok := t.Underlying().(*types.Struct)
 	if !ok {
 		panic("layout of non-struct " + t.String())
+	}
+	if strings.HasSuffix(name, "LeafNode") {
+		sig := leafSig(st)
+		if rep, ok := ls.bySig[sig]; ok {
+			ls.byName[name] = rep
+			return rep
+		}
+		defer func() { ls.bySig[sig] = ls.byName[name] }()
 	}
 	l := &StructLayout{Name: name, Fields: map[string]*FieldInfo{}, TypeID: ls.nextID}
 	ls.nextID++
@@ -640,6 +682,10 @@ func (s *State) existedAt(idx Term, fi *frameInfo) bool {
 // bytesTypeID: ghost allocation type of byte objects (slice backing arrays).
 const bytesTypeID = 1000
 
+// scratchTypeID: allocation class of the storage inside a collate.Buffer (see the model of
+// collate.Collator.Key in call.go): not an ordinary byte object.
+const scratchTypeID = 1001
+
 func atypeOf(st *Symtab, r Term) Term {
 	st.Func("atype", []string{SRef}, SInt)
 	return App(SInt, "atype", r)
@@ -693,4 +739,17 @@ func (s *State) touchedObjects(ex *Exec) []string {
 		}
 	}
 	return out
+}
+
+// canonHeap maps a heap array name written with any member of a layout class
+// ("signedLeafNode.value") to the name the class representative gives it.
+func (ex *Exec) canonHeap(h string) string {
+	i := strings.Index(h, ".")
+	if i < 0 {
+		return h
+	}
+	if l, ok := ex.layouts.byName[h[:i]]; ok && l.Name != h[:i] {
+		return l.Name + h[i:]
+	}
+	return h
 }
